@@ -380,6 +380,7 @@ class Engine(object):
     # -- running -----------------------------------------------------------------------
     def run(self, harness):
         self.worklist = [[]]
+        self.abandoned = []
         set_engine(self)
         try:
             while self.worklist:
@@ -396,7 +397,8 @@ class Engine(object):
                 try:
                     harness(self)
                     self.flush_collected()
-                except PathAbandoned:
+                except PathAbandoned as e:
+                    self.abandoned.append((self.paths, '%s\n%s' % (e, _short_tb())))
                     self.flush_collected()
                 except LeftFragment as e:
                     self.left_fragment.append((self.paths, '%s\n%s' % (e, _short_tb())))
